@@ -160,6 +160,7 @@ class Crate:
         self.cwd = 'w'
         self.reg = None                    # option_env!("CARGO_REGISTRIES_MIRROR_TOKEN"): a CARGO_* name the key's CARGO_ loop skips
         self.have_cc = HAVE_CC
+        self.color = None                  # --color never|always: not an input of the key, must not change what is stored
         self.keep = set()                  # files whose mtime must be put back after the next write (same size, SAME mtime)
         self.remap = False                 # --remap-path-prefix=<parent of the working directory>=/x
         self.natives = ['own', 'fallback'] # both hold libfoo.a; command-line order is not the sorted order
@@ -188,10 +189,10 @@ class Crate:
 
     def snapshot(self):
         return (dict(self.files), dict(self.env), self.vv, list(self.cfgs), list(self.lpaths), self.dep_version,
-                list(self.extra), self.out_dir, self.cwd, self.reg, list(self.natives), dict(self.foo), self.remap)
+                list(self.extra), self.out_dir, self.cwd, self.reg, list(self.natives), dict(self.foo), self.remap, self.color)
 
     def restore(self, snap):
-        (f, e, self.vv, c, l, self.dep_version, x, self.out_dir, self.cwd, self.reg, n, foo, self.remap) = snap
+        (f, e, self.vv, c, l, self.dep_version, x, self.out_dir, self.cwd, self.reg, n, foo, self.remap, self.color) = snap
         self.files, self.env, self.cfgs, self.lpaths, self.extra = dict(f), dict(e), list(c), list(l), list(x)
         self.natives, self.foo = list(n), dict(foo)
 
@@ -207,6 +208,8 @@ class Crate:
         for l in self.lpaths:
             a += ['-L', l]
         a += ['--extern', 'dep=deps/libdep.rlib']
+        if self.color is not None:
+            a += ['--color', self.color]
         if self.remap:
             a += ['--remap-path-prefix=@PARENT@=/x']     # @PARENT@ = the directory above the working directory
         return a + self.extra
@@ -322,7 +325,17 @@ STEPS.update({
     'swap_src': lambda c: swap_files(c, 'src/alpha.rs', 'src/sp ace.rs'),
     # the working directory under a remapped common parent
     'remap_on': lambda c: setattr(c, 'remap', True), 'remap_off': lambda c: setattr(c, 'remap', False),
+    # the colour option is no input of the key: whoever creates the entry, every later reader must see what rustc shows HIM
+    'color_never': lambda c: setattr(c, 'color', 'never'), 'color_always': lambda c: setattr(c, 'color', 'always'),
+    'color_none': lambda c: setattr(c, 'color', None),
+    # line endings only, of the include_str!d file and of a module
+    'crlf_inc': lambda c: toggle_crlf(c, 'data/d.txt'), 'crlf_src': lambda c: toggle_crlf(c, 'src/alpha.rs'),
 })
+
+
+def toggle_crlf(c, path):
+    t = c.files[path]
+    c.files[path] = t.replace('\r\n', '\n') if '\r\n' in t else t.replace('\n', '\r\n')
 
 def bump_foo(c, i):
     c.edits += 1
@@ -343,6 +356,9 @@ RANDOM_POOL = ['same', 'edit_lib', 'edit_mod', 'edit_nested', 'edit_spaced', 'ed
                'reg_unset', 'lint_da', 'lint_ad', 'lint_wa', 'lint_aw', 'static_first_edit', 'static_second_edit', 'static_swap']
 FIXED_HISTORIES.append(['sm_src', 'ss_src', 'sm_inc', 'ss_inc', 'sm_ext', 'ss_ext', 'sm_ext', 'sm_static', 'ss_static', 'sm_static', 'same'])
 FIXED_HISTORIES.append(['swap_src', 'swap_src', 'swap_src', 'remap_on', 'cwd_swap', 'cwd_swap', 'remap_off', 'cwd_swap', 'remap_on', 'same'])
+FIXED_HISTORIES.append(['color_never', 'edit_lib', 'color_always', 'color_none', 'edit_mod', 'color_never', 'color_always', 'warn', 'color_never',
+                        'crlf_inc', 'crlf_inc', 'crlf_src', 'edit_included', 'crlf_inc', 'crlf_src'])
+RANDOM_POOL.extend(['color_never', 'color_always', 'color_none', 'crlf_inc', 'crlf_src'])
 RANDOM_POOL.extend(['ss_src', 'sm_src', 'ss_inc', 'sm_inc', 'ss_ext', 'sm_ext', 'ss_static', 'sm_static', 'swap_src', 'remap_on', 'remap_off'])
 
 
